@@ -154,7 +154,7 @@ class Check:
     props = frozenset()
     technique = "deterministic simulation: seeded engine-model steering + fault injection, reference-semantics oracle"
     resolvers = {"perturb": resolve_perturb}
-    per_run_timeout = 60
+    per_run_timeout = 90
     quick_runs = 1500
     thorough_runs = 30000
 
